@@ -9,16 +9,16 @@
 (***************************************************************************)
 EXTENDS TV
 
+\* (no set / function constructor around ref: TLC caches a lazily bound LET definition only outside such bodies;
+\* the harness filters poisoned locals and unwritten registers itself)
 Line(ci, kk) ==
     LET cs == Cases[ci]
         s0 == InputState(cs, kk, "exec", {})
         ref == RunSrc(cs, s0, kk, {})
-        live == {n \in DOMAIN ref.vars : ~IsPoison(ref.vars[n].v)}
     IN  [ id |-> cs.id, k |-> kk, unspec |-> ref.unspec, why |-> ref.why, div |-> ref.diverged,
           old |-> s0.old, imm |-> s0.imm,
           rt |-> [key \in Keys(cs) |-> RegType(cs.regs[RegIdx(cs, key)])],
-          vars |-> [n \in live |-> [t |-> ref.vars[n].t, v |-> ref.vars[n].v]],
-          wr |-> [key \in ref.wr |-> ref.new[key]] ]
+          vars |-> ref.vars, wrs |-> ref.wr, new |-> ref.new ]
 
 NextRef == /\ verdict = <<>>
            /\ verdict' = <<TRUE>>
